@@ -1,20 +1,20 @@
 #!/bin/sh
-# Must-fail corpus: every patch in selftest/mutants/<Cxx>-*.patch is applied to a scratch copy of /repo and
+# Must-fail corpus: every patch in selftest/mutants/<Cxx>-*.patch and every sub-agent change seeded/<Cxx>-*/patch.diff is applied to a scratch copy of /repo and
 # the property's check must report a VIOLATION there (and the canaries/known findings must still be seen).
 # usage: selftest/run.sh [Cxx ...]
 HERE=$(cd "$(dirname "$0")/.." && pwd)
 fail=0
-for p in "$HERE"/selftest/mutants/*.patch; do
-  id=$(basename "$p" | cut -d- -f1)
+for p in "$HERE"/selftest/mutants/*.patch "$HERE"/seeded/*/patch.diff; do
+  case "$p" in */patch.diff) id=$(basename "$(dirname "$p")" | cut -d- -f1); label="seeded/$(basename "$(dirname "$p")")";; *) id=$(basename "$p" | cut -d- -f1); label=$(basename "$p");; esac
   if [ $# -gt 0 ]; then case " $* " in *" $id "*) ;; *) continue;; esac; fi
   d=$(mktemp -d -p /var/tmp selftest.XXXXXX)
   rsync -a --exclude .git /repo/ "$d/"
   if ! (cd "$d" && patch -p1 -s < "$p"); then echo "SELFTEST-ERROR: $p does not apply"; fail=1; rm -rf "$d"; continue; fi
   out=$("$HERE/check" "$id" quick --repo "$d" -no-evidence 2>&1)
   if echo "$out" | grep -q "^VIOLATION property=$id"; then
-    echo "caught: $(basename "$p"): $(echo "$out" | grep '^VIOLATION' | head -1 | sed 's/replay=.*replays\///')"
+    echo "caught: $label: $(echo "$out" | grep '^VIOLATION' | head -1 | sed 's/replay=.*replays\///')"
   else
-    echo "MISSED: $(basename "$p")"; echo "$out" | tail -5; fail=1
+    echo "MISSED: $label"; echo "$out" | tail -5; fail=1
   fi
   rm -rf "$d"
 done
